@@ -27,6 +27,9 @@ pub enum Path {
 
 #[derive(Clone, Debug, Serialize, Deserialize)]
 pub struct Case {
+    /// use the payload type with a non-empty encoding suffix
+    #[serde(default)]
+    pub suffix: bool,
     pub public: bool,
     pub key_random: bool,
     pub key: KeySeed,
@@ -49,8 +52,10 @@ fn strat<B: Backend>(tier: Tier, public: bool) -> impl Strategy<Value = Case> {
         gen_::footer(),
         gen_::assertion(B::VER.has_assertion()),
         path,
+        prop::bool::weighted(0.3),
     )
-        .prop_map(move |(key_random, key, msg, footer, assertion, path)| Case {
+        .prop_map(move |(key_random, key, msg, footer, assertion, path, suffix)| Case {
+            suffix,
             public,
             key_random: key_random && B::VER != model::Ver::V1, // RSA generation is too slow per case
             key,
@@ -61,7 +66,7 @@ fn strat<B: Backend>(tier: Tier, public: bool) -> impl Strategy<Value = Case> {
         })
 }
 
-fn roundtrip<B: Backend, P: Purpose>(
+fn roundtrip<B: Backend, P: Purpose, M: BytesPayload>(
     acc: &mut Acc,
     c: &Case,
     sealing: &Key<V<B>, P::SealingKey>,
@@ -77,7 +82,7 @@ where
     let i = c.assertion.bytes();
     let ver = B::VER;
 
-    let tok = UnsealedToken::<V<B>, P, Raw>::new(Raw(m.clone())).with_footer(f.clone());
+    let tok = UnsealedToken::<V<B>, P, M>::new(M::from_bytes(m.clone())).with_footer(f.clone());
     let draw_len = if c.public { 0 } else { ver.local_draw_len() };
     let sealed = match &c.path {
         Path::Lib => {
@@ -117,7 +122,7 @@ where
     let s = sealed.to_string();
 
     // spec length of the payload segment
-    let h = format!("{}.{purpose}.", ver.v());
+    let h = token_header::<M>(ver, purpose);
     let (payload, footer_bytes) = model::disassemble(&h, &s)
         .map_err(|e| Fail::new(format!("C01/{name}/{purpose}/display/malformed"), format!("{e}: {s:.80}")))?;
     let expect = if c.public { m.len() + ver.sig_len() } else { ver.local_nonce_len() + m.len() + ver.local_tag_len() };
@@ -134,7 +139,7 @@ where
         "serialised footer differs from the one sealed"
     );
 
-    let parsed: SealedToken<V<B>, P, Raw, Vec<u8>> = s
+    let parsed: SealedToken<V<B>, P, M, Vec<u8>> = s
         .parse()
         .map_err(|e| Fail::new(format!("C01/{name}/{purpose}/parse/err"), format!("own output does not parse: {e}")))?;
     ensure!(
@@ -154,11 +159,11 @@ where
         )
     })?;
     ensure!(
-        un.claims.0 == m,
+        un.claims.bytes() == &m[..],
         format!("C01/{name}/{purpose}/unseal/claims-differ"),
         "claims differ: got {} bytes {}, sealed {} bytes {}",
-        un.claims.0.len(),
-        crate::util::hx(&un.claims.0),
+        un.claims.bytes().len(),
+        crate::util::hx(un.claims.bytes()),
         m.len(),
         crate::util::hx(&m)
     );
@@ -168,7 +173,7 @@ where
     let un2 = sealed.unseal(unsealing, &i, &NoValidation::dangerous_no_validation()).map_err(|e| {
         Fail::new(format!("C01/{name}/{purpose}/unseal-direct/err-{}", err_kind(&e)), format!("{e}"))
     })?;
-    ensure!(un2.claims.0 == m, format!("C01/{name}/{purpose}/unseal-direct/claims-differ"), "claims differ");
+    ensure!(un2.claims.bytes() == &m[..], format!("C01/{name}/{purpose}/unseal-direct/claims-differ"), "claims differ");
 
     acc.eval();
     let block = if ver.nist() { 16 } else { 64 };
@@ -191,6 +196,7 @@ where
         Path::Dangerous(_) => "path:caller-nonce",
     });
     acc.class(if c.key_random { "key:random()" } else { "key:parsed" });
+    acc.class(if M::SUFFIX.is_empty() { "encoding-suffix:none" } else { "encoding-suffix:non-empty" });
     acc.sample(|| json!({"backend": name, "purpose": purpose, "msg_len": m.len(), "footer": crate::util::hx(&f), "assertion_len": i.len(), "path": format!("{:?}", c.path), "token_prefix": s.chars().take(60).collect::<String>()}));
     Ok(())
 }
@@ -204,14 +210,14 @@ pub fn run_case<B: Backend>(c: &Case, acc: &mut Acc) -> R {
             secret_key::<B>(&c.key)
         };
         let pk = sk.public_key();
-        roundtrip::<B, Public>(acc, c, &sk, &pk)
+        if c.suffix { roundtrip::<B, Public, RawS>(acc, c, &sk, &pk) } else { roundtrip::<B, Public, Raw>(acc, c, &sk, &pk) }
     } else {
         let k: LocalKeyOf<B> = if c.key_random {
             LocalKeyOf::<B>::random().map_err(|e| Fail::new(format!("C01/{}/local/random-key", B::NAME), format!("{e}")))?
         } else {
             local_key::<B>(&c.key)
         };
-        roundtrip::<B, Local>(acc, c, &k, &k)
+        if c.suffix { roundtrip::<B, Local, RawS>(acc, c, &k, &k) } else { roundtrip::<B, Local, Raw>(acc, c, &k, &k) }
     }
 }
 
@@ -347,7 +353,7 @@ pub fn def() -> PropertyDef {
     PropertyDef {
         id: "C01",
         level: "exploration",
-        rule: "proptest cases (back end x purpose x key source x payload spec x footer x assertion x seal path {library RNG, scripted draw, caller nonce}); oracle = round-trip identity + spec payload length + re-serialisation; a second family of cases uses the typed payload / footer types of the public API (Json<Value>, RegisteredClaims, (), Json<Value> and Json<struct> footers); non-trivial iff payload longer than one cipher block, or non-empty footer or assertion, or a parsed (not random()) key; distinct by descriptor hash",
+        rule: "proptest cases (back end x purpose x key source x payload encoding suffix {none, non-empty} x payload spec x footer x assertion x seal path {library RNG, scripted draw, caller nonce}); oracle = round-trip identity + spec payload length + re-serialisation; a second family of cases uses the typed payload / footer types of the public API (Json<Value>, RegisteredClaims, (), Json<Value> and Json<struct> footers); non-trivial iff payload longer than one cipher block, or non-empty footer or assertion, or a parsed (not random()) key; distinct by descriptor hash",
         assumptions: vec![
             "aws-lc and libsodium draw from their own OS-seeded generators (not scripted); rare signature shapes are reached by volume",
             "payload type is a raw-bytes Payload with SUFFIX \"\" (same header as JSON)",
